@@ -424,7 +424,10 @@ def c18(seed, n, inproc=None):
     r = random.Random('c18p-%d' % seed)
     hdir = os.path.join(vlib.ROOT, 'harness')
     # feature sets for in-process expansion: coupled traits with and without their partners, then random ones
-    fixed = [['PartialOrd', 'Ord'], ['Clone', 'Copy'], ['PartialEq', 'Eq', 'Hash'], ['Ord', 'Debug', 'Into']]
+    # every coupled pair is split both ways (a cfg on the PARTNER's feature inside a handler only shows when the partner's
+    # feature is off while the handler's own is on), then kept together, then random sets
+    fixed = [['PartialOrd', 'Ord'], ['Debug', 'Clone', 'Default'], ['Copy', 'Eq', 'Hash'], ['PartialEq', 'Ord', 'Into'],
+             ['Clone', 'Copy', 'PartialEq', 'Eq', 'Hash']]
     sets = fixed[:inproc] + [sorted(r.sample(TWELVE, r.randrange(1, 9)), key=TWELVE.index) for _ in range(max(0, inproc - len(fixed)))]
     kdiffs = []
     for k, F in enumerate(sets):
